@@ -335,6 +335,70 @@ theorem PInv.put_keyring {p sh rk KR} (h : PInv p sh rk KR) (rk' : Key) (KR' : K
     obtain ⟨k, k', he', hk'⟩ := h.ups u e he
     exact ⟨k, k', he', hsub _ _ hk'⟩
 
+/-! ### `persistNs`: the writes of `persist`, without the trailing legacy delete on a namespace barrier -/
+
+/-- the tail of the writes of a successful `persistNs ns`: the legacy delete, unless `ns` -/
+def legacyDel (ns : Bool) : List PWrite := if ns then [] else [.del .legacy]
+
+/-- the store after `legacyDel ns` -/
+def Phys.legTail (p : Phys) (ns : Bool) : Phys := if ns then p else p.del .legacy
+
+theorem legacyDel_false : legacyDel false = [.del .legacy] := rfl
+theorem legacyDel_true : legacyDel true = [] := rfl
+
+theorem foldl_legacyDel (p : Phys) (ns : Bool) : List.foldl applyWrite p (legacyDel ns) = p.legTail ns := by
+  cases ns <;> rfl
+
+theorem applyWrites_legacyDel (p : Phys) (ns : Bool) : applyWrites p (legacyDel ns) = p.legTail ns :=
+  foldl_legacyDel p ns
+
+theorem persistNs_false (kr : Keyring) : persistNs false kr = persist kr := by
+  simp [persistNs]
+
+/-- `persistNs` by cases, in the shape of `persist` -/
+theorem persistNs_eq (ns : Bool) (kr : Keyring) : persistNs ns kr =
+    if !kr.root.aesOK then ([], .cipher) else
+    match kr.termKey kr.active with
+    | none => ([.put .keyring (.enc 1 kr.root .keyring (.keyring kr))], .panic)
+    | some ak =>
+      if !ak.aesOK then ([.put .keyring (.enc 1 kr.root .keyring (.keyring kr))], .cipher) else
+      (.put .keyring (.enc 1 kr.root .keyring (.keyring kr)) ::
+        .put .rootKey (.enc kr.active ak .rootKey (.val (.keyrec 1 kr.root))) :: legacyDel ns, .ok) := by
+  unfold persistNs persist
+  by_cases hr : kr.root.aesOK = true
+  · cases hk : kr.termKey kr.active with
+    | none => cases ns <;> simp [hr]
+    | some ak =>
+      by_cases hak : ak.aesOK = true
+      · cases ns <;> simp [hr, hak, legacyDel]
+      · cases ns <;> simp [hr, hak]
+  · cases ns <;> simp [hr]
+
+/-- the writes of `persistNs ns kr` are those of `persist kr`, the result is the same -/
+theorem persistNs_snd (ns : Bool) (kr : Keyring) : (persistNs ns kr).2 = (persist kr).2 := by
+  cases ns <;> simp [persistNs]
+
+theorem mem_persistNs_fst (ns : Bool) (kr : Keyring) (w : PWrite) (hw : w ∈ (persistNs ns kr).1) :
+    w ∈ (persist kr).1 := by
+  cases ns
+  · simpa [persistNs] using hw
+  · simp only [persistNs] at hw
+    exact (List.mem_filter.mp hw).1
+
+theorem get_legTail_other (p : Phys) (ns : Bool) (q : Path) (hq : q ≠ .legacy) : (p.legTail ns).get q = p.get q := by
+  cases ns
+  · exact get_del_other _ _ _ hq
+  · rfl
+
+theorem PInv.legTail {p sh rk KR} (h : PInv p sh rk KR) (ns : Bool) : PInv (p.legTail ns) sh rk KR := by
+  cases ns
+  · exact h.del_meta .legacy (by simp) (by simp) (by simp)
+  · exact h
+
+theorem Coherent.legTail {p rk KR} (h : Coherent p rk KR) (ns : Bool) : Coherent (p.legTail ns) rk KR := by
+  obtain ⟨ak, h1, h2⟩ := h
+  exact ⟨ak, h1, by rw [get_legTail_other _ _ _ (by simp)]; exact h2⟩
+
 /-! ### what consistency buys: a fresh barrier unseals with `rk` and reads every entry back -/
 
 theorem unseal_ok {p sh rk KR} (h : PInv p sh rk KR) (ns : Bool) (fk : Key) (b : Barrier) (hs : b.sealed = true) :
